@@ -21,7 +21,12 @@ Inductive rstep :=
          (hnd_out : list out)    (* observed results of the handler's publications (empty if it did not run) *)
          (full full2 : out)      (* full reads before / after the subscribe *)
          (res : sres)
-| TPair (ch off ep_l ep_f : N) (filt : list N) (full : out) (res_l res_f : sres).
+| TPair (ch off ep_l ep_f : N) (filt : list N) (full : out) (res_l res_f : sres)
+| TSrvStream (ch off ep : N) (filt : list N) (full : out)
+             (push : spush)            (* the Subscribe push written to the transport / the error returned *)
+             (delivered : list item)   (* publications of the channel written to the transport meanwhile *)
+| TSrvCache (ch off ep : N) (use_filters : bool) (filt : list N) (hnd : chandler) (hnd_out : list out)
+            (full full2 : out) (push : spush) (delivered : list item).
          (* two overlapping stream recoveries from the same offset (single flight on): the
             leader (epoch ep_l) is held inside Broker.History until the follower (ep_f,
             a different epoch string) has finished or joined *)
@@ -54,6 +59,17 @@ Fixpoint corr_run (lim : Z) (h : hub) (steps : list rstep) : bool :=
       let '(h2, zf) := sub_stream lim (filt_of fl) h1 ch off ep_f false 0 [] in
       let '(h3, zl) := sub_stream lim (filt_of fl) h2 ch off ep_l false 0 [] in
       out_eqb y full && sres_eqb zf res_f && sres_eqb zl res_l && corr_run lim h3 r
+  | TSrvStream ch off ep fl full push delivered :: r =>
+      let '(h1, y) := hub_get h ch full_filter 0 in
+      let '(h2, z) := srv_stream lim (filt_of fl) h1 ch off ep 0 in
+      out_eqb y full && spush_eqb z push && (match delivered with [] => true | _ => false end) &&
+      corr_run lim h2 r
+  | TSrvCache ch off ep uf fl hnd _ full full2 push delivered :: r =>
+      let '(h1, y) := hub_get h ch full_filter 0 in
+      let '(h2, z) := srv_cache lim uf (filt_of fl) hnd h1 ch off ep 0 in
+      let '(h3, y2) := hub_get h2 ch full_filter 0 in
+      out_eqb y full && spush_eqb z push && out_eqb y2 full2 &&
+      (match delivered with [] => true | _ => false end) && corr_run lim h3 r
   end.
 
 Definition corr (c : case) : bool :=
@@ -103,8 +119,25 @@ Definition stream_ok (lim : Z) (off ep : N) (reject : bool) (fl : list N) (extra
   | _ => false
   end.
 
+(* server-side subscribe with RecoverSince: a push that announces an offset
+   below the top claims continuity from there, so the publications after it
+   must have been delivered exactly (and the recovery must have been possible);
+   a push announcing the top (or beyond) is a fresh position: nothing may be
+   delivered as recovered *)
+Definition srv_stream_ok (lim : Z) (ep : N) (fl : list N) (full : out) (push : spush)
+           (delivered : list item) : bool :=
+  match full, push with
+  | OHist items top epc, PSub poff pep =>
+      if poff <? top then
+        negb (missing items poff top || (negb (ep =? 0) && negb (ep =? epc)) || truncated lim items poff) &&
+        list_eqb item_eqb delivered (expected_pubs fl items poff)
+      else match delivered with [] => true | _ => false end
+  | _, _ => false
+  end.
+
 Definition step_ok (lim : Z) (s : rstep) : bool :=
   match s with
+  | TSrvStream ch off ep fl full push delivered => srv_stream_ok lim ep fl full push delivered
   | TStream ch off ep reject fl race race_out full res =>
       stream_ok lim off ep reject fl (race_items fl race race_out) full res
   | TPair ch off ep_l ep_f fl full res_l res_f =>
